@@ -1126,14 +1126,27 @@ Proof.
     rewrite Pos.mul_1_l. lia.
 Qed.
 
-Lemma exp_parse : forall u, wf_numeral u = true -> exp_fits u = true ->
+Lemma exp_fits_parts : forall u, exp_fits u = true ->
+  exp_in_int u = true /\
+  (u_expval u <= max_exponent_zeros + Z.of_nat (length (u_fdigits u)))%Z /\
+  (- u_expval u <= max_exponent_zeros + Z.of_nat (length (u_ip u)))%Z.
+Proof.
+  intros u H. unfold exp_fits in H.
+  apply andb_true_iff in H. destruct H as [H H3].
+  apply andb_true_iff in H. destruct H as [H1 H2].
+  apply Z.leb_le in H2. apply Z.leb_le in H3.
+  split; [exact H1|]. split; [exact H2|exact H3].
+Qed.
+
+(* ParseInt on the exponent text needs only that the exponent fits Go's int *)
+Lemma exp_parse_in_int : forall u, wf_numeral u = true -> exp_in_int u = true ->
   (if Nat.eqb (exp_begin u) 0 then Some 0%Z else parse_int (skipn (exp_begin u) (render u))) =
   Some (u_expval u).
 Proof.
   intros u Hwf Hfit. destruct (wf_numeral_parts u Hwf) as (_ & _ & Hex).
   destruct (u_exp u) as [[[up sg] ed]|] eqn:He.
   - rewrite (skipn_exp_begin u up sg ed He).
-    unfold exp_begin, u_expval, exp_fits in *. rewrite He in *.
+    unfold exp_begin, u_expval, exp_in_int in *. rewrite He in *.
     apply N.leb_le in Hfit.
     assert (Hnz : Nat.eqb (length (sign_bytes (u_neg u) ++ u_ip u ++ fd_bytes (u_fd u)) +
                            match sg with EPlus => 2 | _ => 1 end) 0 = false).
@@ -1143,6 +1156,14 @@ Proof.
     + apply parse_int_pos; assumption.
     + apply parse_int_neg; assumption.
   - unfold exp_begin, u_expval. rewrite He. reflexivity.
+Qed.
+
+Lemma exp_parse : forall u, wf_numeral u = true -> exp_fits u = true ->
+  (if Nat.eqb (exp_begin u) 0 then Some 0%Z else parse_int (skipn (exp_begin u) (render u))) =
+  Some (u_expval u).
+Proof.
+  intros u Hwf Hfit. apply exp_parse_in_int; [exact Hwf|].
+  apply exp_fits_parts in Hfit. tauto.
 Qed.
 
 Theorem scan_render_value : forall u, wf_numeral u = true -> exp_fits u = true -> zero_int_then_exp u = false ->
@@ -1166,7 +1187,12 @@ Proof.
   set (e := u_expval u) in *.
   assert (HlenZ : Z.of_nat (length ds) = (IL + FL)%Z) by lia.
   assert (HIL : (0 <= IL)%Z) by lia. assert (HFL : (0 <= FL)%Z) by lia.
+  destruct (exp_fits_parts u Hfit) as (_ & Hb1 & Hb2). fold e FL in Hb1. fold e IL in Hb2.
   clearbody IL FL e ds. clear Hlen Hwf Hfit Hz Hip Hfd Hdi Hdf.
+  (* setExp's bound holds: this is the new content of exp_fits *)
+  assert (Hbound : (Z.ltb (max_exponent_zeros + FL) e || Z.ltb (max_exponent_zeros + IL) (- e))%bool = false).
+  { apply orb_false_iff. split; apply Z.ltb_ge; assumption. }
+  rewrite Hbound. clear Hbound Hb1 Hb2.
   destruct (Z.ltb_spec (IL + e) 0) as [H1|H1].
   - (* leading zeros are prepended *)
     cbv beta iota.
@@ -1211,6 +1237,43 @@ Theorem zero_int_exp_refuted : exists u, wf_numeral u = true /\ exp_fits u = tru
 Proof.
   exists (mknumeral false [x30] None (Some (false, ENone, [x31]))).
   split; [vm_compute; reflexivity|]. split; vm_compute; reflexivity.
+Qed.
+
+(* every numeral of the refused shape is refused, whatever its exponent *)
+Lemma zero_int_exp_scan_none : forall u, wf_numeral u = true -> zero_int_then_exp u = true ->
+  scan (render u) = None.
+Proof.
+  intros u Hwf Hz. unfold scan. rewrite render_blocks.
+  destruct u as [neg ip fd ex]. unfold zero_int_then_exp in Hz. cbn [u_neg u_ip u_fd u_exp] in *.
+  destruct ip as [|c [|d ip']]; try discriminate.
+  destruct fd as [fd|]; [discriminate|].
+  destruct ex as [[[up sg] ed]|]; [|discriminate].
+  apply byte_eqb_true in Hz. subst c.
+  destruct (nrun_sign neg ([x30] ++ fd_bytes None ++ exp_bytes (Some (up, sg, ed)))) as (st0 & Hst0 & ->).
+  cbn [fd_bytes exp_bytes app].
+  rewrite (nrun_first_digit st0 neg false _ x30 _ Hst0 eq_refl).
+  rewrite byte_eqb_refl. rewrite nrun_cons.
+  assert (Hstep : forall a i, nstep SFirstZero a i (echar up) = None) by (intros a i; destruct up; reflexivity).
+  rewrite Hstep. reflexivity.
+Qed.
+
+(* the bound of exp_fits is exact: a well-formed numeral whose exponent fits Go's int but breaks
+   the bound is refused, so the library never expands more than max_exponent_zeros zeros.
+   No side condition on zero_int_then_exp: that shape is refused anyway. *)
+Theorem scan_refuses_large_exponent : forall u, wf_numeral u = true -> exp_in_int u = true ->
+  exp_fits u = false -> scan (render u) = None.
+Proof.
+  intros u Hwf Hint Hfit.
+  destruct (zero_int_then_exp u) eqn:Hz; [apply zero_int_exp_scan_none; assumption|].
+  unfold scan.
+  rewrite (nrun_render u Hwf Hz). cbn [a_finished negb a_expBegin a_intLen a_fraLen a_negative].
+  rewrite (exp_parse_in_int u Hwf Hint).
+  unfold exp_fits in Hfit. rewrite Hint in Hfit. cbn [andb] in Hfit.
+  assert (Hbound : (Z.ltb (max_exponent_zeros + Z.of_nat (length (u_fdigits u))) (u_expval u) ||
+                    Z.ltb (max_exponent_zeros + Z.of_nat (length (u_ip u))) (- u_expval u))%bool = true).
+  { apply andb_false_iff in Hfit. apply orb_true_iff.
+    destruct Hfit as [H|H]; apply Z.leb_gt in H; [left|right]; apply Z.ltb_lt; exact H. }
+  rewrite Hbound. reflexivity.
 Qed.
 
 Lemma canonical_zero : canonical (mknum false [] 0).
